@@ -70,10 +70,10 @@ HObj(n, cu, v) == <<HObjW(n, cu, v, HWin(n)[1]), HObjW(n, cu, v, HWin(n)[2])>>
 
 HWorlds == IF ~Hist THEN <<>>
            ELSE IF Thorough
-           THEN <<[cu |-> "p256",   v |-> 2, objs |-> <<"T1", "T2", "T3">>, cas |-> <<"A", "R", "B", "N", "E", "X">>],
-                  [cu |-> "x25519", v |-> 1, objs |-> <<"T1", "T2", "T4">>, cas |-> <<"A", "R", "B", "N", "E", "X">>],
-                  [cu |-> "p256",   v |-> 1, objs |-> <<"T1", "T3", "T4">>, cas |-> <<"A", "R", "B", "N", "X">>],
-                  [cu |-> "x25519", v |-> 2, objs |-> <<"T2", "T3", "T1">>, cas |-> <<"A", "B", "N", "E", "X">>]>>
+           THEN <<[cu |-> "p256",   v |-> 2, objs |-> <<"T1", "T2", "T3">>, cas |-> <<"A", "R", "B", "N", "X">>],
+                  [cu |-> "x25519", v |-> 1, objs |-> <<"T1", "T2", "T4">>, cas |-> <<"A", "B", "N", "E", "X">>],
+                  [cu |-> "p256",   v |-> 1, objs |-> <<"T1", "T3", "T4">>, cas |-> <<"A", "R", "B", "E", "X">>],
+                  [cu |-> "x25519", v |-> 2, objs |-> <<"T2", "T3", "T1">>, cas |-> <<"R", "B", "N", "E", "A">>]>>
            ELSE <<[cu |-> "p256",   v |-> 2, objs |-> <<"T1", "T2">>, cas |-> <<"A", "B", "N", "X">>],
                   [cu |-> "x25519", v |-> 1, objs |-> <<"T1", "T3">>, cas |-> <<"A", "R", "E", "X">>],
                   [cu |-> "p256",   v |-> 1, objs |-> <<"T2", "T4">>, cas |-> <<"A", "R", "N", "X">>],
@@ -96,16 +96,19 @@ HTable(W) ==
         out |-> [t \in 1..Len(objs) |-> [k \in 1..2 |-> [c \in 1..(Len(cas) + 1) |->
                     HOutcome(objs[t][k], IF c = 1 THEN NoCA ELSE cas[c - 1], all)] \o <<>>] \o <<>>] \o <<>>]
 
-HTab == [w \in 1..Len(HWorlds) |-> HTable(HWorlds[w])]
-
 -----------------------------------------------------------------------------
 (* in = world index;  exp = the table (depth 0) / the history;  m = the objects *)
+(* (TLC does not cache a constant table whose evaluation needs ^ or \div: the table is built once per world in HInit,  *)
+(*  the steps evaluate SignWhy / SignM of the one call they make)                                                      *)
 
-NObj == Len(HTab[in].objs)
-NCa  == Len(HTab[in].cas)
+NObj == Len(HWorlds[in].objs)
+NCa  == Len(HWorlds[in].cas)
+\* object t with validity window k (0, 1); signer c (0 = self-signing)
+ObjAt(t, k) == LET W == HWorlds[in] IN HObjW(W.objs[t], W.cu, W.v, HWin(W.objs[t])[k + 1])
+CaAt(c)     == LET W == HWorlds[in] IN IF c = 0 THEN NoCA ELSE HCa(W.cas[c], W.cu, W.v)
 
 \* the curve of the key that signs: the CA's own key, or the caller's key of the object's curve when self-signing
-KeyCurve(t, c) == IF c = 0 THEN HTab[in].objs[t][1].curve ELSE HTab[in].cas[c].curve
+KeyCurve(t, c) == IF c = 0 THEN ObjAt(t, 0).curve ELSE CaAt(c).curve
 HOps(t, c) == IF Thorough /\ KeyCurve(t, c) = "p256" THEN {"sign", "ext", "extlow"} ELSE {"sign", "ext"}
 
 \* class of a call by the past of its object
@@ -124,7 +127,7 @@ HLast(h, t) == LET on == OnObj(h, t) IN
 HClass(h, t, c) == HPrior(h, t, c) \o "/" \o HLast(h, t)
 
 HInit == /\ in \in 1..Len(HWorlds)
-         /\ exp = HTab[in]
+         /\ exp = HTable(HWorlds[in])
          /\ m = [ph |-> "tbl"]
 
 HStart == /\ m.ph = "tbl"
@@ -133,17 +136,18 @@ HStart == /\ m.ph = "tbl"
           /\ UNCHANGED in
 
 \* TBSCertificate.SignWith on object t (Sign = SignWith with a lambda around the key)
-HSign(t, c, op) ==
-    /\ m.ph = "h" /\ Len(exp) < HLen
-    /\ LET o    == HTab[in].out[t][m.var[t] + 1][c + 1]
-           \* guards first; with a signer the object's issuer field is overwritten by that signer's fingerprint
-           niss == IF o.mach = "" /\ c # 0 THEN [m.iss EXCEPT ![t] = c] ELSE m.iss
-           \* the certificate is built from the object: it names whatever the issuer field holds now
-           ret  == IF o.mach = "" THEN niss[t] ELSE -1
-           cls  == HClass(exp, t, c)
-       IN /\ m' = [m EXCEPT !.iss = niss, !.ret = ret]
-          /\ exp' = Append(exp, <<t, c, op, cls, o.why, m.var[t]>>)
-    /\ UNCHANGED in
+\* (why, mach, cls come in as operator arguments: TLC evaluates an argument once, a LET value at every use)
+HSignDo(t, c, op, why, mach, cls) ==
+    LET \* guards first; with a signer the object's issuer field is overwritten by that signer's fingerprint
+        niss == IF mach = "" /\ c # 0 THEN [m.iss EXCEPT ![t] = c] ELSE m.iss
+        \* the certificate is built from the object: it names whatever the issuer field holds now
+        ret  == IF mach = "" THEN niss[t] ELSE -1
+    IN /\ m' = [m EXCEPT !.iss = niss, !.ret = ret]
+       /\ exp' = Append(exp, <<t, c, op, cls, why, m.var[t]>>)
+       /\ UNCHANGED in
+HSignCert(t, c, op, cert) == HSignDo(t, c, op, SignWhy(cert), SignM(cert), HClass(exp, t, c))
+\* cert: what this call is asked to issue (the object's current fields, the signer of this call)
+HSign(t, c, op) == HSignCert(t, c, op, [ObjAt(t, m.var[t]) EXCEPT !.issuer = CaAt(c)])
 
 \* the caller sets the other validity window on the object (renewal)
 HEdit(t) ==
@@ -153,8 +157,9 @@ HEdit(t) ==
     /\ UNCHANGED in
 
 HNext == \/ HStart
-         \/ \E t \in 1..NObj : \E c \in 0..NCa : \E op \in HOps(t, c) : HSign(t, c, op)
-         \/ \E t \in 1..NObj : HEdit(t)
+         \/ /\ m.ph = "h" /\ Len(exp) < HLen        \* (checked first: no enumeration below the leaves)
+            /\ \/ \E t \in 1..NObj : \E c \in 0..NCa : \E op \in HOps(t, c) : HSign(t, c, op)
+               \/ \E t \in 1..NObj : HEdit(t)
 
 -----------------------------------------------------------------------------
 (* Links *)
